@@ -2,6 +2,7 @@ package checks
 
 import (
 	"fmt"
+	"io"
 	"math"
 	"sort"
 
@@ -98,6 +99,29 @@ type c14Verdict struct {
 	accepted bool
 	err      string
 	escaped  bool // a panic escaped a public decoder entry point
+	disagree bool // DecodeDocument and Decode(reader) gave different verdicts for the same document and configuration
+}
+
+// c14SlowReader hands a document out in reads of at most step bytes.
+type c14SlowReader struct {
+	data []byte
+	step int
+}
+
+func (r *c14SlowReader) Read(p []byte) (int, error) {
+	if len(r.data) == 0 {
+		return 0, io.EOF
+	}
+	n := r.step
+	if n > len(p) {
+		n = len(p)
+	}
+	if n > len(r.data) {
+		n = len(r.data)
+	}
+	copy(p, r.data[:n])
+	r.data = r.data[n:]
+	return n, nil
 }
 
 func (t *c14Target) run(cfg *configuration.Configuration) c14Verdict {
@@ -105,7 +129,7 @@ func (t *c14Target) run(cfg *configuration.Configuration) c14Verdict {
 	switch t.path {
 	case "rules":
 		r := rules.NewRules(nil, cfg)
-		idx, p := ev.Replay(r, t.stream)
+		idx, p := replayAuto(r, t.stream)
 		if idx >= 0 {
 			return c14Verdict{err: fmt.Sprintf("event %d (%s): %s", idx, t.stream[idx].K, short(ev.PanicString(p), 200))}
 		}
@@ -117,10 +141,20 @@ func (t *c14Target) run(cfg *configuration.Configuration) c14Verdict {
 		} else {
 			dec = ce.NewCTEDecoder(cfg)
 		}
-		var err error
+		// both public entry points of the decoder: the whole document, and a reader that hands it out in small reads
+		var err, rerr error
 		p, _ := fw.Guard(func() { err = dec.DecodeDocument(t.doc, rules.NewRules(nil, cfg)) })
 		if p != nil {
 			return c14Verdict{err: "escaped panic: " + short(ev.PanicString(p), 200), escaped: true}
+		}
+		p, _ = fw.Guard(func() {
+			rerr = dec.Decode(&c14SlowReader{data: t.doc, step: 1 + int(t.runs%7)*5}, rules.NewRules(nil, cfg))
+		})
+		if p != nil {
+			return c14Verdict{err: "escaped panic (reader): " + short(ev.PanicString(p), 200), escaped: true}
+		}
+		if (err == nil) != (rerr == nil) {
+			return c14Verdict{accepted: err == nil, err: fmt.Sprintf("DecodeDocument: %v / Decode(reader): %v", err, rerr), disagree: true}
 		}
 		if err != nil {
 			return c14Verdict{err: short(err.Error(), 200)}
@@ -180,12 +214,16 @@ func c14Bucket(v uint64) string {
 // if a failure was recorded.
 func c14Calibrate(c *fw.Ctx, t *c14Target, d c14Dim, u c14Usage) (lstar uint64, ok bool) {
 	seen := map[uint64]c14Verdict{}
+	var disagreeAt []uint64
 	probe := func(v uint64) c14Verdict {
 		if r, hit := seen[v]; hit {
 			return r
 		}
 		r := t.withLimit(d, v)
 		seen[v] = r
+		if r.disagree {
+			disagreeAt = append(disagreeAt, v)
+		}
 		return r
 	}
 	fail := func(sig string, extra map[string]interface{}) {
@@ -283,6 +321,10 @@ func c14Calibrate(c *fw.Ctx, t *c14Target, d c14Dim, u c14Usage) (lstar uint64, 
 		}
 	}
 	c.Count("configs_run."+t.path, int64(len(seen)))
+	if len(disagreeAt) > 0 {
+		fail("entry-points-disagree", map[string]interface{}{"at": disagreeAt, "lstar": lstar, "verdicts": seen[disagreeAt[0]].err})
+		return lstar, false
+	}
 	if !good {
 		return lstar, false
 	}
@@ -376,6 +418,13 @@ func c14Combos(c *fw.Ctx, t *c14Target, u c14Usage) bool {
 			vals[below] = u.Lo[below] - 1
 		}
 		r := runWith(vals)
+		if r.disagree {
+			det := t.describe()
+			det["config"] = describeCfg(vals)
+			det["verdicts"] = r.err
+			c.Fail("limit:"+t.path+":combo:entry-points-disagree", det)
+			return false
+		}
 		if r.escaped {
 			det := t.describe()
 			det["config"] = describeCfg(vals)
@@ -430,7 +479,8 @@ func init() {
 		Level: "exploration",
 		Rule: "case = one document (directed documents first, then PRNG-generated rules-valid event streams with containers, nodes/edges, record types, markers/references, chunked and whole arrays, " +
 			"media, custom types, comments and padding, optionally wrapped in extra containers) presented three ways: as events to rules.NewRules, and encoded to CBE / CTE and given to " +
-			"ce.NewCBEDecoder/ce.NewCTEDecoder(cfg).DecodeDocument(doc, rules.NewRules(nil,cfg)). For each limit (MaxContainerDepth, MaxObjectCount, MaxArraySizeBytes, MaxIdentifierLength, " +
+			"ce.NewCBEDecoder/ce.NewCTEDecoder(cfg).DecodeDocument(doc, rules.NewRules(nil,cfg)) and .Decode(reader handing out 1..31 bytes per read, rules) — the two entry points must agree under every configuration; " +
+			"one CTE document in three gets trailing white space and top-level scalars are among the directed documents, so a document cut at the limit can still be well-formed. For each limit (MaxContainerDepth, MaxObjectCount, MaxArraySizeBytes, MaxIdentifierLength, " +
 			"MaxLocalReferenceCount as the marker limit, and MaxDocumentSizeBytes for the decoders) with all other limits at default, the smallest accepted value L* is found by exponential+binary search and " +
 			"L*-2..L*+2, the smallest legal value, random values on both sides, the default and 2^31..2^64-1 are run. Oracle: (i) rejected below L*, accepted from L* on; (ii) L* equals the usage computed by an " +
 			"independent model from the (decoded) event log: max nesting of list/map/node/edge/record/record type, largest array payload in bytes (chunks summed, bit arrays rounded up), longest identifier in bytes, " +
